@@ -1,5 +1,5 @@
 """C06 — SetSketch cardinality estimate: registers never decrease; the two estimators are the same expression."""
-from .. import hirq, nf
+from .. import hirq, nf, ratfn
 from ..rulelib import user_nodes, tree_of, writes_to_self, self_method_calls, def_exprs, short
 from . import C04, C05
 
@@ -16,6 +16,9 @@ RULES = {
     "LOWER": C05.RULES["LOWER"] + " (a stale bound makes sketch discard valid register updates: the estimate then undercounts)",
     "REINIT": "SetSketcher::reinit re-establishes every live mutated field with the constructor's value (RESET analysis of C13): the "
               "estimate of a reused sketcher is the estimate of a new one",
+    "FORMULA": "both estimators compute m(1-1/b) / (a ln(b) SUM_i b^(-K_i)) — decided as an equality of rational functions over the fields "
+               "and the register sum (pmh/ratfn.py), the summed term being exp(-K ln b) or b.powf(-K) — and get_cardinal_stats advertises "
+               "sqrt(((b+1)/(b-1) ln b - 1)/m) as relative standard deviation",
     "SIB": "SetSketcher::get_cardinal_stats().0 and MleJaccard::get_cardinal_estimate have the same normal form "
            "m*(1-1/b) / (a*lnb*SUM_c exp(-c*ln_1p(b-1))) (fold(0,|acc,c| acc+f(c)) == map(f).sum(); field alias _b == b)",
 }
@@ -42,13 +45,13 @@ def _sum_form(e):
             term = l
         else:
             return None
-        return (_container(e["recv"]), _rename(nf.nf(term, alias=ALIAS), x))
+        return (_container(e["recv"]), _rename(nf.nf(term, alias=ALIAS), x), term, x)
     if e["name"] == "sum" and not e["args"]:
         m = nf.strip(e["recv"])
         if m["k"] == "MethodCall" and m["name"] == "map" and len(m["args"]) == 1 and m["args"][0]["k"] == "Closure":
             cl = m["args"][0]
             x = hirq.show_pat(cl["params"][0])
-            return (_container(m["recv"]), _rename(nf.nf(cl["body"], alias=ALIAS), x))
+            return (_container(m["recv"]), _rename(nf.nf(cl["body"], alias=ALIAS), x), cl["body"], x)
     return None
 
 
@@ -89,7 +92,7 @@ def _loop_sum_form(fn, acc, ds):
             return None
     else:
         return None
-    return (_container(f["iter"]), _rename(nf.nf(term, alias=ALIAS, res=R), x))
+    return (_container(f["iter"]), _rename(nf.nf(term, alias=ALIAS, res=R), x), term, x)
 
 
 def _container(e):
@@ -102,6 +105,121 @@ def _container(e):
 def _rename(s, x):
     import re
     return re.sub(r"\b%s\b" % re.escape(x), "c", s)
+
+
+LNB_FORMS = (r"^self\.b\.ln\(\)$", r"^\(self\.b - 1(\.0)?\)\.ln_1p\(\)$", r"^\(-1(\.0)? \+ self\.b\)\.ln_1p\(\)$")
+
+
+def _canon_lnb(r):
+    """ln(b) spelled `self.b.ln()` or `(self.b - 1.).ln_1p()` is the field lnb (the constructors define it so: CTOR-SIB / LNB)"""
+    import re
+    for a in list(ratfn.atoms_of(r)):
+        if any(re.match(f_, a) for f_ in LNB_FORMS):
+            r = ratfn.substitute(r, a, (ratfn.p_atom("self.lnb"), ratfn.ONE))
+    return r
+
+
+CARD = "self.m * (1 - 1/self.b) / (self.a * self.lnb * SUM)"
+RSD2 = "((self.b + 1) / (self.b - 1) * self.lnb - 1) / self.m"
+
+
+def formula_rule(ctx, fid, fn, rf, sf, R):
+    """FORMULA: the estimate is m(1-1/b) / (a ln(b) SUM_i b^(-K_i)) as a rational function of the fields and the register sum,
+    and the summed term is b^(-K): exp(-K ln b) or b.powf(-K)"""
+    want = ratfn.parse(CARD)
+    if ratfn.equal(rf, want):
+        ctx.ok("FORMULA", fid, "estimate == %s (equality of rational functions; found %s)" % (CARD, ratfn.show(rf)[:90]), hirq.loc(fn))
+    else:
+        ctx.violation("FORMULA", fid, "closed form", hirq.loc(fn),
+                      "the estimate is `%s`, expected %s (Ertl 2021, eq. 12; the statement's n_hat)" % (ratfn.show(rf)[:140], CARD))
+    term, x = nf.strip_casts(sf[2]), sf[3]
+    for _ in range(6):
+        if term["k"] == "Path" and "local" in term["res"] and R.lookup(term["res"]["local"], term) is not None:
+            term = nf.strip_casts(R.lookup(term["res"]["local"], term))
+    good = False
+    shown = sf[1]
+    cK = (ratfn.p_atom("K"), ratfn.ONE)
+
+    def rk(e):
+        r_ = ratfn.rat(e, R, alias=ALIAS)
+        import re
+        for a in list(ratfn.atoms_of(r_)):
+            if re.match(r"^%s\.to_f64\(\)\.unwrap\(\)$" % re.escape(x), a) or a == x:
+                r_ = ratfn.substitute(r_, a, cK)
+        return _canon_lnb(r_)
+    if term["k"] == "MethodCall" and term["name"] == "exp" and not term["args"]:
+        good = ratfn.equal(rk(term["recv"]), ratfn.parse("0 - K * self.lnb"))
+    elif term["k"] == "MethodCall" and term["name"] in ("powf", "powi") and len(term["args"]) == 1:
+        good = nf.nf(term["recv"], True, alias=ALIAS, res=R) == "self.b" and ratfn.equal(rk(term["args"][0]), ratfn.parse("0 - K"))
+    if good:
+        ctx.ok("FORMULA", fid, "summed term == b^(-K): %s" % shown[:80], hirq.loc(term))
+        return "b^(-K)"
+    else:
+        ctx.violation("FORMULA", fid, "summed term", hirq.loc(term), "the term summed over the registers is `%s`, expected exp(-K*ln b) (or b.powf(-K))" % shown[:120])
+
+
+def rsd_rule(ctx, facts):
+    """the advertised relative standard deviation: sqrt(((b+1)/(b-1) ln b - 1)/m)"""
+    from ..rulelib import resolver_of
+    fid = SS + "get_cardinal_stats"
+    fn = facts.fn(fid)
+    R = resolver_of(fn)
+    body = fn["hir"]
+    tail = nf.strip(body["expr"]) if "expr" in body else None
+    if tail is None or tail["k"] != "Tup" or len(tail["es"]) != 2:
+        ctx.violation("FORMULA", fid, "cannot-establish: rsd", hirq.loc(fn), "get_cardinal_stats does not end in a 2-tuple")
+        return
+    e = nf.strip_casts(tail["es"][1])
+    for _ in range(6):
+        if e["k"] == "Path" and "local" in e["res"]:
+            d = R.lookup(e["res"]["local"], e)
+            if d is None:
+                ds = def_exprs(fn, e["res"]["name"])
+                d = ds[0] if len(ds) == 1 else None
+            if d is None:
+                break
+            e = nf.strip_casts(d)
+        else:
+            break
+    if e["k"] == "MethodCall" and e["name"] == "sqrt" and not e["args"]:
+        r_ = _canon_lnb(ratfn.rat(e["recv"], R, alias=ALIAS))
+        if ratfn.equal(r_, ratfn.parse(RSD2)):
+            ctx.ok("FORMULA", fid, "relative standard deviation == sqrt(%s)" % RSD2, hirq.loc(e))
+        else:
+            ctx.violation("FORMULA", fid, "relative standard deviation", hirq.loc(e),
+                          "the advertised relative standard deviation is sqrt(`%s`), expected sqrt(%s)" % (ratfn.show(r_)[:120], RSD2))
+    else:
+        ctx.violation("FORMULA", fid, "cannot-establish: rsd", hirq.loc(fn), "the second component `%s` is not a `.sqrt()`" % nf.nf(e, True)[:80])
+
+
+def lnb_rule(ctx, facts):
+    """LNB: every struct literal with a field `lnb` defines it as ln of the value given to the field b/_b of the same literal"""
+    import re
+    from ..rulelib import resolver_of
+    ctx.rule("LNB", "every constructor of SetSketcher / MleJaccard stores lnb = ln(b) for the b it stores: `(b - 1.).ln_1p()` or `b.ln()` of the "
+                    "same expression as the field b/_b of the same struct literal (FORMULA reads ln b from that field)")
+    n = 0
+    for fid, fn in facts.fns.items():
+        if "hir" not in fn or not fid.startswith("setsketcher::") and "setsketcher::" not in fid:
+            continue
+        for x in user_nodes(fn):
+            if x["k"] != "Struct" or not any(f["name"] == "lnb" for f in x.get("fields", [])):
+                continue
+            R = resolver_of(fn)
+            f = {y["name"]: y["e"] for y in x["fields"]}
+            bexp = f.get("_b", f.get("b"))
+            n += 1
+            if bexp is None:
+                ctx.violation("LNB", fid, "no b field", hirq.loc(x), "struct literal with lnb but no b/_b field")
+                continue
+            b_ = nf.nf(bexp, True, res=R)
+            l_ = nf.nf(f["lnb"], True, res=R)
+            forms = ["(%s - 1.0).ln_1p()" % b_, "(%s - 1).ln_1p()" % b_, "(-1.0 + %s).ln_1p()" % b_, "%s.ln()" % b_]
+            if l_ in forms:
+                ctx.ok("LNB", fid, "lnb = %s with b = %s" % (l_[:60], b_[:40]), hirq.loc(x))
+            else:
+                ctx.violation("LNB", fid, "lnb definition", hirq.loc(x), "lnb is `%s` while b is `%s`: expected (b - 1.).ln_1p() or b.ln() of the same b" % (l_[:80], b_[:60]))
+    ctx.floor("C06 struct literals defining lnb", n, 3)
 
 
 def sib(ctx, facts):
@@ -139,8 +257,14 @@ def sib(ctx, facts):
             return
         name, sf = list(sums.items())[0]
         import re
-        out[fid] = (re.sub(r"\b%s\b" % name, "SUM", cnf), sf)
-    (ca, sa), (cb, sb) = out[a_id], out[b_id]
+        from ..rulelib import resolver_of
+        R = resolver_of(fn)
+        rf = _canon_lnb(ratfn.rat(card[0], R, {name: (ratfn.p_atom("SUM"), ratfn.ONE)}, alias=ALIAS))
+        canon = formula_rule(ctx, fid, fn, rf, sf, R)
+        out[fid] = (re.sub(r"\b%s\b" % name, "SUM", cnf), (sf[0], canon or sf[1]), rf)
+    (ca, sa, ra), (cb, sb, rb) = out[a_id], out[b_id]
+    if ratfn.equal(ra, rb):
+        ca = cb = ratfn.show(ra)
     if ca == cb and sa == sb:
         ctx.ok("SIB", a_id, "estimate = %s with SUM over %s of %s — identical in both estimators" % (ca, sa[0], sa[1]), hirq.loc(fa))
         ctx.ok("SIB", b_id, "same normal form as SetSketcher::get_cardinal_stats", hirq.loc(fb))
@@ -181,6 +305,8 @@ def run(ctx, facts):
             ctx.violation("WRITERS", fid, "k_vec written", hirq.loc(w), "%s writes the registers: `%s`" % (fid, hirq.show(w)[:60]))
     ctx.ok("WRITERS", "SetSketcher", "k_vec written only in %s (%d write sites)" % (okw, n), "")
     sib(ctx, facts)
+    rsd_rule(ctx, facts)
+    lnb_rule(ctx, facts)
     from . import C07
     C07.ctor_sib(ctx, facts)
     C04.regvalue_rule(ctx, facts)
